@@ -9,7 +9,7 @@ META = {
     "technique": "TLA+ product automaton of an implementation-shaped model of lexer.scan and a reference WHATWG-HTML/JavaScript/CSS/JSON tokenizer, explored by TLC to a fix-point over a fragment alphabet (documents of unbounded length); every reachable product state's shortest document is built by the real code with a show at every fragment boundary (real ast.Show contexts judged against the reference slots by TLC: candidates and root causes), then rendered with a context-breaking value dictionary; TLC tokenises every rendered output with the reference tokenizers and compares its structure signature with that of the benign rendering",
     "level": "model_checking",
     "level_text": "MC_AEProduct: TLC explores the product of AELexer (lexer.scan transcribed branch by branch) and the reference tokenizers over 16 fragments (quick) / 63 fragments broad + 26 fragments deep (thorough): the region where both machines are in step to its fix-point, and a bounded number of fragments behind every root cause; states that neither agree nor are confinement-compatible are breaking edges (diagnostic). Context level: every exported document is built by the real lexer with `{{ x }}` at each boundary; Trace_AEContext runs the reference over the bytes, computes Agree / Compatible / root cause per boundary and reports model drift of AELexer. Confinement level (the verdict): for at least one hole per reachable (context, URL, slot, attribute kind, root cause) class, at the end of a document and in front of a suffix, the document is rendered with ~100 values (strings, numbers, booleans, Stringer, error, slices, maps, structs; trusted types as negative control), directly and through a macro, an in-place macro, an imported macro and rendered .html/.txt files; Trace_AEConfine requires Signature(output with value) = Signature(output with the benign value of the same type and shape).",
-    "level_note": "Trusted: TLC, the Json module, the reference tokenizers themselves (WHATWG tokenizer without character-reference decoding, foreign content and noscript; JavaScript lexical grammar with the usual regex heuristic; css-syntax token boundaries), the driver (concretises documents, calls BuildTemplate/Run, reads ast.Show.Context in ExpandedTransformer, logs). Event-handler and style attribute values are not re-parsed as JS/CSS (they are only candidates); URL structure inside URL attributes is not part of the signature; Markdown/JS/CSS/JSON files as top-level formats are not generated.",
+    "level_note": "Trusted: TLC, the Json module, the reference tokenizers themselves (WHATWG tokenizer without character-reference decoding, foreign content and noscript; JavaScript lexical grammar with the usual regex heuristic; css-syntax token boundaries), the driver (concretises documents, calls BuildTemplate/Run, reads ast.Show.Context in ExpandedTransformer, logs). URL structure inside URL attributes is not part of the signature; Markdown files are not generated; JS/CSS/JSON files only in the thorough tier.",
     "design_ref": "7/C06",
 }
 FAMS = ["autoescape"]
@@ -113,27 +113,39 @@ def show_doc(frags, hole):
 
 # ------------------------------------------------------------------------------------------------ MC
 DEEP_FRAGS = [1, 2, 3, 4, 5, 6, 7, 8, 9, 10, 11, 12, 13, 14, 16, 17, 18, 19, 20, 26, 27, 28, 29, 30, 32, 33]
+# files of the other formats (thorough): fragments that matter in a .js / .css / .json file
+JS_FRAGS = [2, 5, 6, 7, 8, 9, 10, 12, 13, 14, 28, 29, 30, 31, 32, 33, 34, 35, 36, 38]
+CSS_FRAGS = [7, 8, 9, 10, 12, 13, 14, 18, 30, 32, 33, 34, 37, 38, 47, 60]
+JSON_FRAGS = [2, 7, 8, 10, 12, 13, 14, 30, 35, 36, 47, 48]
 
 
 def model_check(ctx):
     """quick: 16 fragments, exploration behind a root cause unbounded (MaxDiv = MaxDoc);
        thorough: all 63 fragments with 2 fragments behind a root cause (broad) and 26 fragments with 5 (deep)."""
-    runs = ctx.pick([("mc", QUICK_FRAGS, 0)], [("mc_broad", FULL_FRAGS, 2), ("mc_deep", DEEP_FRAGS, 5)])
+    runs = ctx.pick([("mc", QUICK_FRAGS, 0, "HTML")],
+                    [("mc_broad", FULL_FRAGS, 2, "HTML"), ("mc_deep", DEEP_FRAGS, 5, "HTML"),
+                     ("mc_js", JS_FRAGS, 4, "JS"), ("mc_css", CSS_FRAGS, 4, "CSS"), ("mc_json", JSON_FRAGS, 4, "JSON")])
 
     def one(run):
-        step, use, maxdiv = run
+        step, use, maxdiv, fmt = run
         wd = ctx.stage(step, FAMS)
-        rig.write_cfg(wd / "MC_AEProduct.cfg", constants={"Use": set(use), "MaxDoc": 40, "MaxDiv": maxdiv}, invariants=["BelowBound"], view="View")
-        r = ctx.tlc(wd, "MC_AEProduct", workers=max(4, rig.NCPU // len(runs)), timeout=2400, coverage=False, dump=[str(wd / "states.dump")])
+        rig.write_cfg(wd / "MC_AEProduct.cfg", constants={"Use": set(use), "MaxDoc": 40, "MaxDiv": maxdiv, "Fmt": fmt}, invariants=["BelowBound", "PrintSucc"], view="View")
+        r = ctx.tlc(wd, "MC_AEProduct", workers=(max(4, rig.NCPU // 2) if fmt == "HTML" else 2), timeout=2400, coverage=False, dump=[str(wd / "states.dump")])
         if not r.ok:
             raise Infra(f"MC_AEProduct failed (fix-point not reached below MaxDoc, or TLC error): {wd}/MC_AEProduct.out\n" + rig.tail(r.out, 25))
         return wd, r
     with ThreadPoolExecutor(max_workers=len(runs)) as ex:
         res = list(ex.map(one, runs))
     docs, edges, roots, nbroken, instep = [], collections.Counter(), collections.Counter(), 0, 0
+    lexst, refst, submodes = set(), set(), set()
     frags = None
     for (wd, r), run in zip(res, runs):
         frags = {f["id"]: f["b"] for f in rig.read_ndjson(wd / "frags.ndjson")}
+        # the predictions printed by the PrintSucc "invariant": <<"SUCC", doc, <<10 * context + url, ...>>>>
+        succs = {}
+        for m in re.finditer(r'<<\s*"SUCC",\s*<<([\d,\s]*)>>,\s*<<([\d,\s-]*)>>\s*>>', r.out):
+            dd = tuple(int(x) for x in m.group(1).replace("\n", " ").split(",") if x.strip())
+            succs[dd] = [int(x) for x in m.group(2).replace("\n", " ").split(",") if x.strip()]
         n = 0
         for blk in (wd / "states.dump").read_text().split("\n\n"):
             m = re.search(r"/\\ doc = <<(.*?)>>", blk, re.S)
@@ -142,10 +154,12 @@ def model_check(ctx):
             n += 1
             d = [int(x) for x in m.group(1).replace("\n", " ").split(",") if x.strip()]
             broken = "broken = TRUE" in blk
+            lexst.update(re.findall(r'ctx \|-> "(\w+)"', blk))
+            lexst.update("sub:" + x for x in re.findall(r'sub \|-> "(\w+)"', blk))
+            refst.update(re.findall(r'st \|-> "(\w+)"', blk))
+            submodes.update(re.findall(r'\bm \|-> "(\w+)"', blk))
             div = int(re.search(r"/\\ div = (\d+)", blk).group(1))
-            sm = re.search(r"/\\ succ = (<<.*?>>)\n/\\ ", blk + "\n/\\ ", re.S)
-            succ = json.loads(sm.group(1).replace("<<", "[").replace(">>", "]")) if sm else []
-            docs.append((d, broken, div, run[1], succ))
+            docs.append((d, broken, div, run[1], succs.get(tuple(d)), run[3]))
             instep += div == 0
             if broken:
                 nbroken += 1
@@ -156,11 +170,13 @@ def model_check(ctx):
         if n != r.distinct:
             raise Infra(f"dump has {n} states, TLC reported {r.distinct} ({wd})")
     ctx.cov.update(states=sum(r.distinct for _, r in res), transitions=sum(r.generated for _, r in res),
-                   mc_wall_s=round(max(r.wall for _, r in res), 1), mc_runs=[{"fragments": len(u), "behind_root": d, "states": r.distinct, "transitions": r.generated}
-                                                                           for (_, r), (_, u, d) in zip(res, runs)],
+                   mc_wall_s=round(max(r.wall for _, r in res), 1), mc_runs=[{"format": fm, "fragments": len(u), "behind_root": d, "states": r.distinct, "transitions": r.generated}
+                                                                           for (_, r), (_, u, d, fm) in zip(res, runs)],
                    product_states_in_step=instep, product_states_broken=nbroken,
+                   lexer_model_contexts_and_substates_reached=sorted(lexst), reference_html_states_reached=sorted(refst),
+                   reference_js_css_json_modes_reached=sorted(submodes),
                    breaking_edges=len(edges), breaking_edge_roots=len(roots),
-                   bounds="; ".join(f"{len(u)} fragments: synchronised region to its fix-point, {d or 'unboundedly many'} fragments behind a root cause" for _, u, d in runs)
+                   bounds="; ".join(f"{fm} files, {len(u)} fragments: synchronised region to its fix-point, {d or 'unboundedly many'} fragments behind a root cause" for _, u, d, fm in runs)
                           + "; depth of every state graph below MaxDoc=40; template nesting <= 3")
     if edges:
         ctx.cov["model_counterexample"] = {"invariants": ["Sync"], "breaking_edges": len(edges),
@@ -184,7 +200,7 @@ def run_shards(ctx, step, module, recs, outname, shard, consts=None):
         if len(out) != len(parts[i]):
             raise Infra(f"{module}: {len(out)} output lines for {len(parts[i])} records ({wd})")
         return out
-    with ThreadPoolExecutor(max_workers=min(len(parts), max(2, rig.NCPU - 4))) as ex:
+    with ThreadPoolExecutor(max_workers=min(len(parts), max(2, rig.NCPU))) as ex:
         res = list(ex.map(one, range(len(parts))))
     return [x for part in res for x in part]
 
@@ -207,18 +223,18 @@ def build_tree(docs):
     return nodes, index
 
 
-def context_level(ctx, step, docs, frags):
+def context_level(ctx, step, docs, frags, fmt="HTML"):
     """docs: lists of fragment ids.  Returns per-node info {prefix tuple: {...class of the boundary...}}."""
     nodes, index = build_tree(docs)
     cfile = ctx.work / f"{step}_cases.ndjson"
-    rig.write_ndjson(cfile, [{"id": n["id"], "frags": [frags[f] for f in n["pre"]]} for n in nodes])
+    rig.write_ndjson(cfile, [{"id": n["id"], "fmt": fmt, "frags": [frags[f] for f in n["pre"]]} for n in nodes])
     ofile = ctx.work / f"{step}_obs.ndjson"
     ctx.drive("c06", cfile, ofile, args=["-mode", "ctx"], timeout=1200)
     real = {o["id"]: o for o in rig.read_ndjson(ofile)}
     if len(real) != len(nodes):
         raise Infra(f"ctx driver returned {len(real)} observations for {len(nodes)} documents")
     # shards: contiguous preorder ranges, each preceded by the ancestors of its first node
-    nsh = max(1, min(rig.NCPU - 4, 8, -(-len(nodes) // 400)))
+    nsh = max(1, min(rig.NCPU, 8, -(-len(nodes) // 400)))
     size = -(-len(nodes) // nsh)
     shards = []
     for k in range(0, len(nodes), size):
@@ -236,7 +252,7 @@ def context_level(ctx, step, docs, frags):
     # sensitivity self-test, context level (same TLC run as the real observations, ids >= 9000000):
     # a real context replaced by another one must be flagged incompatible
     st = []
-    sid, aid = index.get((1,)), index.get((3,))
+    sid, aid = (index.get((1,)), index.get((3,))) if fmt == "HTML" else (None, None)
     if sid and real[sid]["ctx"] == 3:
         st.append({"id": 9000001, "p": 1, "frag": frags[1], "ctx": 1, "url": 0})       # HTML inside <script>
     if aid and real[aid]["ctx"] == 7:
@@ -248,7 +264,7 @@ def context_level(ctx, step, docs, frags):
     def one(i):
         wd = ctx.stage(f"{step}_{i}", FAMS)
         rig.write_ndjson(wd / "obs.ndjson", shards[i][0])
-        rig.write_cfg(wd / "Trace_AEContext.cfg", invariants=["Done"], postcondition="Consumed")
+        rig.write_cfg(wd / "Trace_AEContext.cfg", constants={"Fmt": fmt}, invariants=["Done"], postcondition="Consumed")
         r = ctx.tlc(wd, "Trace_AEContext", workers=1, timeout=1500)
         if not r.ok or not (wd / "ctxout.ndjson").exists():
             raise Infra(f"Trace_AEContext did not complete: {wd}/Trace_AEContext.out\n" + rig.tail(r.out, 25))
@@ -328,7 +344,7 @@ def confinement_level(ctx, step, cases, selftest=False):
         for o in obs:
             if len(st) >= 3:
                 break
-            if o["pt"]["ctx"] == "HTML" and o["pt"]["slot"] == "text" and o["pt"]["root"] == "none" and o["via"] == "direct":
+            if o.get("fmt", "HTML") == "HTML" and o["pt"]["ctx"] == "HTML" and o["pt"]["slot"] == "text" and o["pt"]["root"] == "none" and o["via"] == "direct":
                 donor = next((x for x in o["outs"] if x["c"] == "html" and x["oc"] == "ok"), None)
                 victim = next((x for x in o["outs"] if x["c"] == "word" and x["oc"] == "ok"), None)
                 if donor and victim:
@@ -339,7 +355,7 @@ def confinement_level(ctx, step, cases, selftest=False):
                     st.append(c)
         if not st:
             raise Infra("sensitivity self-test: no synchronised HTML text hole to corrupt")
-    n = max(2, min(rig.NCPU - 4, 8))
+    n = max(2, min(rig.NCPU, 8))
     shard = max(30, -(-(len(obs) + len(st)) // n))
     judged = run_shards(ctx, step, "Trace_AEConfine", obs + st, "judged.ndjson", shard)
     if selftest:
@@ -360,8 +376,9 @@ def bads_of(obs, judged):
             oo = o["outs"][b["j"] - 1]
             bb = o["outs"][oo["b"] - 1]
             bads.append({"id": o["id"], "j": b["j"], "sig": b["sig"],
-                         "case": {"id": o["id"], "frags": o["frags"], "hole": o["hole"], "via": o["via"], "pt": o["pt"]},
-                         "what": {"template": show_doc(o["frags"], o["hole"]), "via": o["via"], "value_class": oo["c"],
+                         "case": {"id": o["id"], "fmt": o.get("fmt", "HTML"), "frags": o["frags"], "hole": o["hole"], "via": o["via"], "pt": o["pt"]},
+                         "what": {"file": "index" + {"JS": ".js", "CSS": ".css", "JSON": ".json"}.get(o.get("fmt"), ".html"),
+                                  "template": show_doc(o["frags"], o["hole"]), "via": o["via"], "value_class": oo["c"],
                                   "rendered": rig.b2s(oo["out"]), "benign": rig.b2s(bb["out"]), "real_context": o["pt"]["ctx"],
                                   "reference_slot": o["pt"]["slot"] + (":" + o["pt"]["kind"] if o["pt"]["kind"] else "")}})
     return bads
@@ -371,91 +388,92 @@ def bads_of(obs, judged):
 def run(ctx, only_case=None):
     if only_case is not None:
         return run_cases(ctx, [only_case], replaying=True)
-    docs, frags = model_check(ctx)
-    # 1. context level: the document of every product state, every transition out of a state of the
-    #    synchronised region (thorough: out of every state of the deep run as well)
-    dl, seen = [], set()
-
-    def add(d):
-        t = tuple(d)
-        if t not in seen:
-            seen.add(t)
-            dl.append(list(d))
-    for d, broken, div, use, succ in docs:
-        add(d)
-    nstate_docs = len(dl)
-    info = context_level(ctx, "ctx", dl, frags)
-    hole_docs = [d for d, _, _, _, _ in docs]
-    drifted = sorted((pre for pre, x in info.items() if x["drift"]), key=len)
-    # one test per transition out of a state of the synchronised region: the real context after the
-    # transition against the context predicted by AELexer (exported by MC_AEProduct as `succ`)
-    tcases, tpred = [], {}
-    for d, broken, div, use, succ in docs:
-        if broken or div != 0 or not succ:
-            continue
-        for f in use:
-            t = tuple(d) + (f,)
-            if t not in seen and t not in tpred and succ[f - 1]:
-                tpred[t] = succ[f - 1]
-                tcases.append({"id": len(tcases) + 1, "frags": [frags[x] for x in t]})
-    if tcases:
-        tfile, tobs = ctx.work / "trans_cases.ndjson", ctx.work / "trans_obs.ndjson"
-        rig.write_ndjson(tfile, tcases)
-        ctx.drive("c06", tfile, tobs, args=["-mode", "ctx"], timeout=1200)
-        treal = {o["id"]: o for o in rig.read_ndjson(tobs)}
-        keys = list(tpred)
-        for i, t in enumerate(keys):
-            o = treal[i + 1]
-            if o["ctx"] in (-1, -3):
+    alldocs, frags = model_check(ctx)
+    ccases = []
+    tot = collections.Counter()
+    allclasses, allcand, allroots, drift_notes = set(), set(), set(), []
+    for fmt in sorted({d[5] for d in alldocs}, key=lambda f: (f != "HTML", f)):
+        docs = [d for d in alldocs if d[5] == fmt]
+        sfx = "" if fmt == "HTML" else "_" + fmt.lower()
+        # 1. context level: the document of every product state
+        dl, seen = [], set()
+        for d, broken, div, use, succ, _ in docs:
+            if tuple(d) not in seen:
+                seen.add(tuple(d))
+                dl.append(list(d))
+        info = context_level(ctx, "ctx" + sfx, dl, frags, fmt)
+        hole_docs = list(dl)
+        drifted = sorted((pre for pre, x in info.items() if x["drift"]), key=len)
+        # one test per transition out of a state of the synchronised region: the real context after the
+        # transition against the context predicted by AELexer (printed by MC_AEProduct, PrintSucc)
+        tcases, tpred = [], {}
+        for d, broken, div, use, succ, _ in docs:
+            if broken or div != 0 or not succ:
                 continue
-            if [CN.get(o["ctx"], "none"), o["url"]] != tpred[t]:
-                drifted.append(t)
-                info.setdefault(t, {"ctx": o["ctx"], "mctx": tpred[t][0]})
-        ctx.cov["transitions_replayed"] = len(tcases)
-    drifted.sort(key=len)
-    if drifted:
-        # the real lexer is in another state than the model after these documents: explore what follows them
-        ex = drifted[0]
-        ctx.cov["model_drift"] = (f"{len(drifted)} of {len(info) + len(tcases)} boundaries: AELexer predicts another context than the real lexer, e.g. "
-                                  f"{text([frags[f] for f in ex])!r}: real {CN.get(info[ex]['ctx'])}, model {info[ex]['mctx']} (diagnostic; continuations of the drifted documents are explored)")
-        for t in drifted:
-            if "slot" not in info[t]:
-                del info[t]
-        cont = ctx.pick(QUICK_FRAGS, DEEP_FRAGS)
-        more = []
-        for pre in drifted[:ctx.pick(12, 40)]:
-            more.append(list(pre))
-            for f in cont:
-                more.append(list(pre) + [f])
-                for g in cont:
-                    more.append(list(pre) + [f, g])
-        info2 = context_level(ctx, "ctx2", more, frags)
-        info.update(info2)
-        hole_docs += more
+            for f in use:
+                t = tuple(d) + (f,)
+                if t not in seen and t not in tpred and succ[f - 1] >= 0:
+                    tpred[t] = [CN.get(succ[f - 1] // 10, "inert"), succ[f - 1] % 10]
+                    tcases.append({"id": len(tcases) + 1, "fmt": fmt, "frags": [frags[x] for x in t]})
+        if tcases:
+            tfile, tobs = ctx.work / f"trans{sfx}_cases.ndjson", ctx.work / f"trans{sfx}_obs.ndjson"
+            rig.write_ndjson(tfile, tcases)
+            ctx.drive("c06", tfile, tobs, args=["-mode", "ctx"], timeout=1200)
+            treal = {o["id"]: o for o in rig.read_ndjson(tobs)}
+            for i, t in enumerate(list(tpred)):
+                o = treal[i + 1]
+                if o["ctx"] in (-1, -3):
+                    continue
+                if [CN.get(o["ctx"], "inert"), o["url"]] != tpred[t]:
+                    drifted.append(t)
+                    info.setdefault(t, {"ctx": o["ctx"], "mctx": tpred[t][0]})
+            tot["transitions_replayed"] += len(tcases)
+        drifted.sort(key=len)
+        if drifted:
+            # the real lexer is in another state than the model after these documents: explore what follows them
+            ex = drifted[0]
+            drift_notes.append(f"{fmt}: {len(drifted)} of {len(info) + len(tcases)} boundaries: AELexer predicts another context than the real lexer, e.g. "
+                               f"{text([frags[f] for f in ex])!r}: real {CN.get(info[ex]['ctx'])}, model {info[ex]['mctx']}")
+            for t in drifted:
+                if "slot" not in info[t]:
+                    del info[t]
+            cont = sorted({f for d in docs for f in d[3]}) if fmt != "HTML" else ctx.pick(QUICK_FRAGS, DEEP_FRAGS)
+            more = []
+            for pre in drifted[:ctx.pick(12, 40)]:
+                more.append(list(pre))
+                for f in cont:
+                    more.append(list(pre) + [f])
+                    for g in cont:
+                        more.append(list(pre) + [f, g])
+            info.update(context_level(ctx, "ctx2" + sfx, more, frags, fmt))
+            hole_docs += more
+        tot["documents"] += len(dl)
+        tot["boundaries"] += len(info)
+        for k, v in (("boundaries_not_built", -1), ("boundaries_inert", -2), ("host_panics_ctx", -3)):
+            tot[k] += sum(1 for x in info.values() if x["ctx"] == v)
+        holes = list(holes_of(hole_docs, info, frags))
+        allclasses |= {(fmt,) + h["key"][:4] for h in holes}
+        allcand |= {(fmt,) + h["key"][:4] for h in holes if not h["compat"]}
+        allroots |= {h["key"][4] for h in holes if h["key"][4] != "none"}
+        # 2. confinement level: the cases
+        via_seen = set()
+        for h in select(ctx, holes, 1):
+            ccases.append({"id": len(ccases) + 1, "fmt": fmt, "frags": h["frags"], "hole": h["hole"], "via": "direct", "pt": h["pt"]})
+            # the other ways of reaching the hole: quick, once per real (context, url) in a synchronised hole;
+            # thorough, for every (context, url, slot, kind) class
+            vk = (h["key"][:2] + (h["end"],)) if ctx.quick else (h["key"][:4] + (h["end"],))
+            if (not ctx.quick or (h["key"][4] == "none" and h["agree"])) and vk not in via_seen:
+                via_seen.add(vk)
+                for v in VIAS:
+                    ccases.append({"id": len(ccases) + 1, "fmt": fmt, "frags": h["frags"], "hole": h["hole"], "via": v, "pt": h["pt"]})
+    ctx.cov.update(documents=tot["documents"], state_documents=tot["documents"], boundaries=tot["boundaries"],
+                   transitions_replayed=tot["transitions_replayed"], boundaries_not_built=tot["boundaries_not_built"],
+                   boundaries_inert=tot["boundaries_inert"], host_panics_ctx=tot["host_panics_ctx"],
+                   ctx_slot_pairs=len(allclasses), candidate_pairs=len(allcand), root_causes_seen=len(allroots))
+    if drift_notes:
+        ctx.cov["model_drift"] = "; ".join(drift_notes) + " (diagnostic; continuations of the drifted documents are explored)"
     else:
         ctx.cov["model_drift_boundaries"] = 0
-    nb = len(info)
-    ctx.cov.update(documents=len(dl), state_documents=nstate_docs, boundaries=nb,
-                   boundaries_not_built=sum(1 for x in info.values() if x["ctx"] == -1),
-                   boundaries_inert=sum(1 for x in info.values() if x["ctx"] == -2),
-                   host_panics_ctx=sum(1 for x in info.values() if x["ctx"] == -3))
-    holes = list(holes_of(hole_docs, info, frags))
-    classes = {h["key"][:4] for h in holes}
-    ctx.cov.update(ctx_slot_pairs=len(classes), candidate_pairs=len({h["key"][:4] for h in holes if not h["compat"]}),
-                   root_causes_seen=len({h["key"][4] for h in holes if h["key"][4] != "none"}))
-    # 2. confinement level
-    chosen = select(ctx, holes, 1)
-    ccases = []
-    via_seen = set()
-    for h in chosen:
-        ccases.append({"id": len(ccases) + 1, "frags": h["frags"], "hole": h["hole"], "via": "direct", "pt": h["pt"]})
-        # the other ways of reaching the hole: quick, once per real (context, url) in a synchronised hole;
-        # thorough, for every class
-        vk = (h["key"][:2] + (h["end"],)) if ctx.quick else (h["key"][:4] + (h["end"],))
-        if (not ctx.quick or (h["key"][4] == "none" and h["agree"])) and vk not in via_seen:
-            via_seen.add(vk)
-            for v in VIAS:
-                ccases.append({"id": len(ccases) + 1, "frags": h["frags"], "hole": h["hole"], "via": v, "pt": h["pt"]})
     return run_cases(ctx, ccases)
 
 
@@ -466,7 +484,7 @@ def run_cases(ctx, ccases, replaying=False):
         for k in ("compared", "notshown", "refundef", "trustedchanged"):
             tot[k] += j[k]
     renders = sum(1 for o in cobs for x in o["outs"] if x["oc"] == "ok")
-    nontrivial = {(text(o["frags"]), o["hole"], o["via"], x["v"]) for o in cobs for x in o["outs"]
+    nontrivial = {(o.get("fmt"), text(o["frags"]), o["hole"], o["via"], x["v"]) for o in cobs for x in o["outs"]
                   if x["oc"] == "ok" and x["b"] - 1 != x["v"] and x["out"] != o["outs"][x["b"] - 1]["out"]}
     ctx.cov.update(confinement_cases=len(ccases), evaluations=renders + ctx.cov.get("boundaries", 0),
                    renders=renders, comparisons=tot["compared"], values_not_shown=tot["notshown"], ref_undefined=tot["refundef"],
@@ -481,7 +499,7 @@ def run_cases(ctx, ccases, replaying=False):
         raise Infra("negative control failed: no trusted value changed any structure signature (signature insensitive?)")
     bads = bads_of(cobs, judged)
     hp = [{"id": o["id"], "sig": {"fam": "autoescape", "hostpanic": x["c"], "ctx": o["pt"]["ctx"]},
-           "case": {"id": o["id"], "frags": o["frags"], "hole": o["hole"], "via": o["via"], "pt": o["pt"]},
+           "case": {"id": o["id"], "fmt": o.get("fmt", "HTML"), "frags": o["frags"], "hole": o["hole"], "via": o["via"], "pt": o["pt"]},
            "what": {"template": show_doc(o["frags"], o["hole"]), "hostpanic": x["c"]}}
           for o in cobs for x in o["outs"] if x["oc"] == "hostpanic"]
     ctx.cov["judged_bad_first_pass"] = len(bads)
